@@ -207,6 +207,27 @@ theorem pick_getElem (xs : List V) (idx : List Int)
     | zero => simp [List.getElem?_eq_getElem hl]
     | succ r => simpa [pick] using ih' r
 
+/-- selecting all rows in their own order gives the column back -/
+theorem pick_range (xs : List V) : pick xs ((List.range xs.length).map Int.ofNat) = xs := by
+  apply List.ext_getElem?
+  intro r
+  have hv : ∀ i ∈ (List.range xs.length).map Int.ofNat, 0 ≤ i ∧ i < (xs.length : Int) := by
+    intro i hi
+    obtain ⟨j, hj, rfl⟩ := List.mem_map.mp hi
+    exact ⟨Int.natCast_nonneg j, Int.ofNat_lt.mpr (List.mem_range.mp hj)⟩
+  rw [pick_getElem xs _ hv r]
+  by_cases h : r < xs.length
+  · simp [h]
+  · have : xs[r]? = none := List.getElem?_eq_none (by omega)
+    simp [h]
+
+/-- selecting along a permutation of the row numbers permutes the column: no row is lost,
+    duplicated or invented (`pick` drops nothing here although it is defined by `filterMap`) -/
+theorem pick_perm (xs : List V) (ord : List Nat) (h : ord.Perm (List.range xs.length)) :
+    (pick xs (ord.map Int.ofNat)).Perm xs := by
+  have := (h.map Int.ofNat).filterMap (fun i => xs[i.toNat]?)
+  simpa [pick, pick_range] using this.trans (by rw [← pick]; rw [pick_range])
+
 /-- when every index is in range for every column, the whole table is selected row-wise:
     all columns by the same indices — **rows stay aligned** -/
 theorem specFilter_valid (a : AT) (idx : List Int)
